@@ -97,6 +97,24 @@ def str_method(E, m, args, kwargs):
             out = x if out is None else ops.binop(E, 'Add', ops.binop(E, 'Add', out, me), x)
         return out if out is not None else VC('')
     if m == 'format':
+        if _conc(me) and not kwargs:
+            import re as _re
+            parts = _re.split(r'(\{\})', me.v)
+            if '{' in me.v.replace('{}', '') or '}' in me.v.replace('{}', ''):
+                raise Unsupported('str.format with field specs')
+            if sum(1 for p in parts if p == '{}') != len(rest):
+                raise PyRaise(VExc('IndexError', [VC('Replacement index out of range')]))
+            out = VC('')
+            it = iter(rest)
+            for p in parts:
+                if p == '{}':
+                    x = next(it)
+                    if isinstance(x, VRef) or (isinstance(x, VO) and not E.tfacts.get((x.name, 'str'))):
+                        ops.opaque_op_may_raise(E, 'format() of object')
+                    out = ops.binop(E, 'Add', out, E.to_str(x) if not isinstance(x, VRef) else VS(z3.String(E.fresh('fmt'))))
+                else:
+                    out = ops.binop(E, 'Add', out, VC(p))
+            return out
         raise Unsupported('str.format on symbolic')
     if m == 'isdigit':
         f = ufun('str_isdigit', SS, z3.BoolSort())
